@@ -615,11 +615,18 @@ def _make_init(cls: t.Type[PaneBase], fields: t.Sequence[Field]):
     setattr(cls, 'from_dict_unchecked', from_dict_unchecked)
 
 
+def _unsubscripted(cls: type) -> type:
+    # the class `cls` was subscripted from (`G` for `G[int]` and for `G[U][int]`), or `cls` itself
+    while '__origin__' in cls.__dict__:
+        cls = cls.__dict__['__origin__']
+    return cls
+
+
 def _make_eq(cls: t.Type[PaneBase], fields: t.Sequence[Field]):
     #eq_fields = list(filter(lambda f: f.eq, fields))
     def __eq__(self: PaneBase, other: t.Any) -> bool:
         # check if classes are the same (modulo type variables)
-        if self.__class__.__dict__.get('__origin__', self.__class__) != other.__class__.__dict__.get('__origin__', other.__class__):
+        if _unsubscripted(self.__class__) != _unsubscripted(other.__class__):
             return False
         return all(
             getattr(self, field.name) == getattr(other, field.name)
